@@ -113,6 +113,13 @@ claimed = {
          "NOT machine-checked: the lookup side of the retained trie (rmatch, allRetained iterate over Go maps) and that unrelated trie nodes are untouched by a recursive insert - covered by the BOUNDED stand-in shared with C06 (labelled bounded, never counted as proved: retained insert/replace/clear for every pair of topics against every filter of 1..3 levels); "
          "the SUBSCRIBE handler that sends the retained messages is under a trusted contract pinned to its body (see C07)."),
    design='DESIGN.md §4 C08', technique='contracts (one-step contracts on the recursive trie functions, map type invariant, ghost log, frame checking) with VCs over go/ssa discharged by z3/cvc5 (govc); bounded exhaustive stand-in for the trie lookups'),
+ 'C20': dict(level='proof',
+   text=("Contract-based deductive proof of the client-side mechanisms (core; the composition over subscribe / unsubscribe / PUBLISH histories is argued, not machine-checked). Client.Connect and ConnectTLS, against ghost logs of dials, of CONNACK packets read and decoded, of started services and of Close calls: they return nil exactly when a CONNACK with return code 0 was read and then start the connection's goroutines exactly once; "
+         "a CONNACK with any other code makes them return exactly that code as the error, and an error of type ConnackCode never has another origin; on every error nothing is started and the dialled connection is closed exactly once (deferred function verified), on success it is left open. "
+         "The completion function registered for a SUBSCRIBE (run when the SUBACK arrives) registers, for every filter in request order, the application's callback in the client-local topic tree for exactly that filter with exactly the granted QoS when the return code is not 0x80, and nothing for 0x80 (per-iteration loop contracts over a ghost log of store calls); "
+         "an error, a foreign packet, differing identifiers or a differing number of return codes register nothing. The completion function for an UNSUBSCRIBE removes every filter of the request, in order, for all subscribers, or nothing at all. subscribe/unsubscribe/ping write exactly one packet of their type and register the request with its completion function; Subscribe without a message callback is refused before anything is sent. "
+         "Inbound dispatch is the fan-out (C01), QoS handling and duplicate suppression (C02/C13) on the same code, part of this check. NOT machine-checked: that the client-local tree matches filters correctly (C06: bounded), goroutine exit, that start does not fail (assumed)."),
+   design='DESIGN.md §4 C20', technique='ghost-log contracts, call-site obligations and per-iteration loop contracts incl. closures and deferred functions; VCs over go/ssa discharged by z3/cvc5 (govc)'),
  'C04': dict(level='proof',
    text=("Contract-based deductive proof: every index, slice (also against len, not only cap: 'strictslice'), nil, conversion and overflow obligation in every Decode path is generated with no annotation and discharged; "
          "contracts add 0<=n<=len(src), every returned field lies within src[:n], loop variants (termination), and acceptance of every well-formed packet (for SUBSCRIBE/UNSUBSCRIBE against a caller-chosen ghost entry chain). Unbounded in input length and topic count."),
@@ -123,7 +130,6 @@ na_reason = 'not yet claimed: contracts for this property are still being writte
 na = {
  'C16': "not applicable to contract-based deductive verification: bounded-time teardown and goroutine exit are liveness statements over all schedules of at least four goroutines per connection; no pre/postcondition of a function states them. The safety premises they rest on (lock balance on every path, Close wakes both sides, no wait that can never end) are proved under C15, and teardown's single-shot behaviour under C09.",
  'C18': "not applicable to contract-based deductive verification: data-race freedom is a happens-before property of every pair of accesses in every schedule; a function contract cannot quantify over what other goroutines do. Related per-function facts are proved elsewhere (the write mutex discipline under C17, lock balance under C15, the ack queue's operations under its mutex under C13).",
- 'C20': "not claimed: the client API (Client.Connect, subscribe/unsubscribe closures) was not put under contract in the time available; its building blocks are covered by other checks (CONNACK decoding C03/C04, the ack dispatch and completion callbacks C12, fan-out to the callback C01).",
 }
 
 checks = []
